@@ -4,8 +4,13 @@ use crate::error::{RecvError, TryRecvError, TrySendError};
 use core::task::{Context, Poll};
 use std::fmt;
 use std::mem::MaybeUninit;
+#[cfg(not(excsn_fibre_verif))]
 use std::sync::atomic::{AtomicBool, AtomicUsize, Ordering};
+#[cfg(not(excsn_fibre_verif))]
 use parking_lot::Mutex;
+// Verification builds route the oneshot state machine through the traced primitives (hook H2).
+#[cfg(excsn_fibre_verif)]
+use crate::internal::sync::{AtomicBool, AtomicUsize, Mutex, Ordering};
 
 // State constants for OneShotShared::state
 pub(super) const STATE_EMPTY: usize = 0; // No value, receiver may be waiting. Initial state.
